@@ -141,6 +141,10 @@ func (w *webWriter) flushWithTrailer() {
 		if err := w.writeTrailer(); err != nil {
 			return // nothing
 		}
+	} else {
+		// Trailers-only response: the status travels in the HTTP headers,
+		// the content type still has to be the gRPC-web one.
+		w.Header().Set("Content-Type", w.typ+"+"+w.enc)
 	}
 	w.Flush()
 }
